@@ -685,6 +685,10 @@ class GenericPlainRegistry(Generic[QuantityT, UnitT], metaclass=RegistryMeta):
                 )
 
             name = prefix + unit_name
+            if name in self._units:
+                # an explicit definition (reached through a plural or another
+                # spelling) is kept as it is
+                return name
             symbol = self.get_symbol(name, case_sensitive)
             prefix_def = self._prefixes[prefix]
             self._units[name] = UnitDefinition(
